@@ -239,7 +239,13 @@ def _check_demux(ctx, prog, b, owner, exact, forbidden, wildcard_keep, session_a
     probs = []
     if len(ms) < 1:
         probs.append("no DemuxError::MissingSession construction found")
-    if len(ups) != 1:
+    # every hand-off of the datagram is decided by this datagram's own binding lookup (exact, then wildcard)
+    undecided = [(ub, ut) for ub, ut in ups if not g.dominates(b1, ub)]
+    for ub, ut in undecided:
+        probs.append("the datagram is handed upward at %s without consulting listen_bindings for its destination first (e.g. through a remembered session): an exact binding made later never takes over from the wildcard one" % F.call_loc(ut))
+    if undecided:
+        pass
+    elif len(ups) != 1:
         probs.append("expected one upward hand-off (%s), found %d" % (hand_up, len(ups)))
     else:
         for x in ms:
